@@ -30,7 +30,7 @@ func init() {
 				copySourcesAreWritten(c, "crypto", "crypto/hkdf", "crypto/chacha20poly1305", "crypto/curve25519", "hap/pair", "hap")
 			}},
 			{ID: "C06-R3", Title: "frame-size constant agreement", Decides: "at most 1024 plaintext bytes per frame; reader and writer agree on the last-frame test", Floor: 4, Run: func(c *core.Ctx) { c06r3(c); passThrough(c, "C06"); returnsUndecorated(c, "C06") }},
-			{ID: "C06-R4", Title: "io.Reader contract in packetisation and frame reads", Decides: "round-trip however the source reader delivers the data", Floor: 2, Run: c06r4},
+			{ID: "C06-R4", Title: "io.Reader contract in packetisation and frame reads", Decides: "round-trip however the source reader delivers the data", Floor: 2, Run: func(c *core.Ctx) { c06r4(c); polarityEverywhere(c, "C06") }},
 			{ID: "C06-R5", Title: "end of message on a full last frame, with or without end of input behind it", Decides: "exact multiples of the frame size round-trip, also on a connection that stays open", Floor: 2, Run: func(c *core.Ctx) { c06r5(c); frameAtATime(c) }},
 			{ID: "C06-R6", Title: "no private read-ahead; message in one buffer; read-counter continuity", Decides: "sequences of messages on one session round-trip", Floor: 3, Run: c06r6},
 		},
